@@ -40,6 +40,7 @@ type Engine struct {
 	ftMembers  map[string][]*ssa.Function
 	tableCache map[string][]string
 	known      []knownFinding
+	ftBySig    map[string]*Contract // uniform contracts of unnamed func types, keyed by signature string
 }
 
 func loadEngine(repo string) (*Engine, error) {
@@ -265,6 +266,45 @@ func (e *Engine) bindContracts() error {
 			continue
 		}
 		e.closuresOf[f] = cs
+	}
+	e.ftBySig = map[string]*Contract{}
+	for key, c := range e.specs.FTypes {
+		i := strings.Index(key, "::")
+		desig := key[i+2:]
+		if !strings.Contains(desig, ".") {
+			continue
+		}
+		// Type.field: the (unnamed) func type stored in that field (directly, or as map/slice element)
+		dot := strings.LastIndex(desig, ".")
+		p := e.pkgs[key[:i]]
+		var ft types.Type
+		if p != nil {
+			if tn := p.Type(desig[:dot]); tn != nil {
+				if st, ok := tn.Type().Underlying().(*types.Struct); ok {
+					for fi := 0; fi < st.NumFields(); fi++ {
+						if st.Field(fi).Name() == desig[dot+1:] {
+							ft = st.Field(fi).Type()
+						}
+					}
+				}
+			}
+		}
+		for ft != nil {
+			switch u := ft.Underlying().(type) {
+			case *types.Map:
+				ft = u.Elem()
+				continue
+			case *types.Slice:
+				ft = u.Elem()
+				continue
+			}
+			break
+		}
+		if _, ok := ft.(*types.Signature); !ok || ft == nil {
+			errs = append(errs, fmt.Sprintf("%s: functype target %s is not a field holding a func type", c.Where, desig))
+			continue
+		}
+		e.ftBySig[typeKey(ft)] = c
 	}
 	if len(errs) > 0 {
 		sort.Strings(errs)
